@@ -34,14 +34,15 @@ CLAIMS = {
              'symbol": layout agreement of control blocks with the views generic code casts them to, dispatch agreement, duplicate '
              'suppression dominating every state update, equivalence of the two submission APIs, completion implies all k slots filled '
              '(monotone), and a closed classification of every store into a symbol table.',
-        design_ref='DESIGN.md section 6 C01; rules R-LAYOUT, R-DISPATCH, R-DUP, R-SETAVAIL, R-COMPLETE, R-SRCSTORE, R-SRCPTR',
+        design_ref='DESIGN.md section 6 C01; rules R-LAYOUT, R-DISPATCH, R-DUP, R-SETAVAIL, R-COMPLETE, R-SRCSTORE, R-SRCPTR, R-SIBLINGS (11.2)',
         note='Decides only these structural clauses; does NOT decide that decoded bytes are right (value-level). ' + BASE,
         technique='layout comparison from debug info; dominance/guard rules over the CFG; value-origin classification of stores'),
     'C02': dict(
         text='Both RS decoders run the matrix decode only with >= k distinct symbols, return FAILURE and never mark completion with fewer, '
              'trigger decoding when the k-th distinct symbol is counted, through either submission API; the GF tables are the documented '
-             'fields. Structural necessary conditions of the MDS property.',
-        design_ref='DESIGN.md section 6 C02; rules R-RS-THRESHOLD, R-DUP, R-SETAVAIL, R-COMPLETE, R-TABLES, R-POLY',
+             'fields; the three copies of the GF matrix algebra (inversion, Vandermonde inversion, product, addmul) and the two RS API '
+             'layers agree event for event (R-SIBLINGS). Structural necessary conditions of the MDS property.',
+        design_ref='DESIGN.md section 6 C02; rules R-RS-THRESHOLD, R-DUP, R-SETAVAIL, R-COMPLETE, R-TABLES, R-POLY, R-SIBLINGS (11.2)',
         note='Does NOT decide that the generator is MDS or that inversion succeeds (value-level). n <= 2^m-1 is not enforced by the '
              'GF(2^m) codec: recorded as a known finding of C09. ' + BASE,
         technique='dominance/guard rules on the counters and the decode call; constant-data comparison'),
@@ -56,7 +57,7 @@ CLAIMS = {
         text='One rule per sentence: finish_decoding returns OK only on complete paths and FAILURE only after a negative completion test '
              '(error edges removed by an inter-procedural error-edge analysis); submission routines return only OK; completion predicate '
              'discipline; received source pointers are stored and copied out as given.',
-        design_ref='DESIGN.md section 6 C10; rules R-FINISH-TRUTH, R-RETSET, R-COMPLETE, R-RS-THRESHOLD, R-SRCPTR, R-SRCSTORE',
+        design_ref='DESIGN.md section 6 C10; rules R-FINISH-TRUTH, R-RETSET, R-COMPLETE, R-RS-THRESHOLD, R-SRCPTR, R-SRCSTORE, R-SIBLINGS (11.2)',
         note='Decides status/completion agreement per path; does not decide that the counters/tables are right on every history. ' + BASE,
         technique='path rules over the CFG with error edges removed; return-set analysis; dominance of flag stores'),
     'C11': dict(
@@ -67,12 +68,15 @@ CLAIMS = {
         note='"Exactly one call per decoded symbol" is argued from once-per-site + empty-slot guards + monotone tables. ' + BASE,
         technique='call-site rules with value-flow of the callback result; store classification'),
     'C09': dict(
-        text='Rejection direction of parameter validation for all codecs in scope: the guards that hold on every OK path of '
+        text='Both directions of parameter validation for all codecs in scope. Rejection: the guards that hold on every OK path of '
              'of_set_fec_parameters (collected inter-procedurally: dispatcher restricted to the codec id, codec routine with '
-             'store-forwarded fields, matrix constructor through its non-NULL returns) imply the advertised limits; plus the argument '
+             'store-forwarded fields, matrix constructor through its non-NULL returns) imply the advertised limits. Acceptance: assuming '
+             'the advertised limits, every edge entering a rejection region of the dispatcher / codec routine / matrix constructor is '
+             'refuted or is an allocation-failure edge (R-ACCEPT). Plus the argument '
              'guards (session, role, ESI range, NULL buffers) of the dispatch layer and encoders with pure failing edges.',
-        design_ref='DESIGN.md section 6 C09; rules R-PARAM, R-APIGUARD, R-RETDEF',
-        note='Decides "outside the limits => rejected" and the argument guards; does NOT decide "inside the limits => OK and usable". '
+        design_ref='DESIGN.md section 6 C09 and 11.2; rules R-PARAM, R-ACCEPT, R-APIGUARD, R-RETDEF',
+        note='Decides "outside the limits => rejected", "inside the limits => OK absent allocation failure" and the argument guards; '
+             'does NOT decide that the accepted session is then usable (that is C01-C06). '
              'One known finding (RS-2^m accepts n > 2^m-1; cannot be repaired without breaking a pinned test). ' + BASE,
         technique='inter-procedural guard collection + interval reasoning + region enumeration over compared constants'),
     'C08': dict(
@@ -152,7 +156,7 @@ CLAIMS = {
              'encoders never write a source buffer; a NULL output slot is replaced by a library allocation before use; the output is '
              'zeroed and exactly the k scaled sources (RS) / the other entries of the equation (LDPC) are accumulated; k <= esi < n; the '
              'accumulation kernels are exact (kernel extent analysis).',
-        design_ref='DESIGN.md section 6 C06; rules R-TABLES, R-POLY, R-RO-FLOW, R-NULLSLOT, R-ENC-LOOP, R-APIGUARD, R-DISPATCH, R-KEA',
+        design_ref='DESIGN.md section 6 C06; rules R-TABLES, R-POLY, R-RO-FLOW, R-NULLSLOT, R-ENC-LOOP, R-APIGUARD, R-DISPATCH, R-KEA, R-SIBLINGS (11.2)',
         note='Does NOT decide the generator coefficients (that RS repair symbols are the Vandermonde-systematic ones). ' + BASE,
         technique='constant-data comparison, write-sink flow analysis with callee summaries, dominance, loop-range rules, KEA'),
     'C07': dict(
@@ -169,7 +173,7 @@ CLAIMS = {
              '(sources first), completion scan, duplicate suppression, table-store classification, NULL-slot contract, encoder '
              'accumulation, read-only sources, release completeness, and the mixed-radix rule showing that row checks and column checks '
              'of the generated matrix each cover every source symbol exactly once.',
-        design_ref='DESIGN.md section 6 C16; rules R-LAYOUT, R-DISPATCH, R-APIGUARD, R-SETAVAIL, R-COMPLETE, R-DUP, R-SRCSTORE, R-SRCPTR, R-NULLSLOT, R-ENC-LOOP, R-RO-FLOW, R-2D-RADIX, R-OWN-FIELD, R-OWN-ELEM',
+        design_ref='DESIGN.md section 6 C16; rules R-LAYOUT, R-DISPATCH, R-APIGUARD, R-SETAVAIL, R-COMPLETE, R-DUP, R-SRCSTORE, R-SRCPTR, R-NULLSLOT, R-ENC-LOOP, R-RO-FLOW, R-2D-RADIX, R-OWN-FIELD, R-OWN-ELEM, R-SIBLINGS (11.2)',
         note='Does NOT decide completeness of erasure recovery nor that the factorisation search accepts exactly the right (k, n-k). Five '
              'defects of this codec were repaired (see known_findings.json "fixed"). ' + BASE,
         technique='layout comparison, dominance, loop-range and affine-stride (mixed radix) rules, ownership analysis'),
